@@ -5,4 +5,5 @@ Extraction Language OCaml.
 Extraction "../ocaml/gen/C10/model.ml" keep_types
   lower_bound binary_search sortedb str_ltb Z.ltb Z.eqb
   is_valid get_rlm_idx_gen get_rlm_idx describe_gen boolean_field_char
-  c10_valid_ok c10_idx_ok c10_desc_ok index_of in_domain.
+  c10_valid_ok c10_idx_ok c10_desc_ok index_of in_domain
+  field_is_valid field_get_rlm_idx_gen field_describe_gen c10_field_valid_ok c10_field_idx_ok c10_field_desc_ok.
